@@ -275,15 +275,7 @@ func MapKeys[M ~map[K]V, K cmp.Ordered, V any](site string, m M) []K {
 	}
 	slices.Sort(keys)
 	if len(keys) > 1 && inWorld() {
-		var c int
-		Yield(&Op{Kind: "maprange@" + site, Apply: func() {
-			c = cur.Tape.Choose(1<<16, func(r *Rand) int {
-				if r.Chance(0.3) {
-					return 0
-				}
-				return r.Intn(1 << 16)
-			})
-		}})
+		c := mapRangeChoice(site)
 		if c != 0 {
 			r := NewRand(uint64(c))
 			for i := len(keys) - 1; i > 0; i-- {
@@ -293,4 +285,20 @@ func MapKeys[M ~map[K]V, K cmp.Ordered, V any](site string, m M) []K {
 		}
 	}
 	return keys
+}
+
+// mapRangeChoice draws the permutation seed of one map iteration. Non-generic
+// on purpose: generic code is instantiated (and race-instrumented) in the
+// calling package, and its closures would be seen by the race detector.
+func mapRangeChoice(site string) int {
+	var c int
+	Yield(&Op{Kind: "maprange@" + site, Apply: func() {
+		c = cur.Tape.Choose(1<<16, func(r *Rand) int {
+			if r.Chance(0.3) {
+				return 0
+			}
+			return r.Intn(1 << 16)
+		})
+	}})
+	return c
 }
